@@ -65,7 +65,19 @@ def pred_feb29_endpoint_other_year(case, v):
     return case.get('src') == 'c10' and 'a' in case.get('case', {}) and c10.pred_feb29_endpoint_other_year(case['case'], v)
 
 
-PREDICATES = {'c11_feb29_endpoint_other_year': pred_feb29_endpoint_other_year}
+def pred_empty_period_on_its_boundary(case, v):
+    """'the rest of the week|month|year' asked on the last day of that period, 'year|month to date' asked on its first day, 'earlier this week'
+    asked on a Monday: the period is empty and comes back with start == end == the reference date (the Specs pin the week form)"""
+    import re
+    if v.kind != 'DATERANGE_START_NOT_BEFORE_END' or case.get('family') != 'period':
+        return False
+    val = v.detail.get('value', {})
+    return (val.get('start') == val.get('end') == str(case.get('ref', ''))[:10]
+            and re.search(r'\brest of\b|\bto date\b|\bearlier this\b', case.get('q', '')) is not None)
+
+
+PREDICATES = {'c11_feb29_endpoint_other_year': pred_feb29_endpoint_other_year,
+              'c11_empty_period_on_its_boundary': pred_empty_period_on_its_boundary}
 
 
 def run_generated(case):
@@ -188,6 +200,41 @@ def modifier_holiday_enum():
             yield {'culture': 'zh-cn', 'q': ['{}', '我{}回家'][i % 2].format(y + h), 'ref': refs[i % 3], 'family': 'holiday'}
 
 
+PERIOD_HEADS = ['Q1', 'Q2', 'Q3', 'Q4', 'the first quarter', 'the second quarter', 'the third quarter', 'the fourth quarter', '1st quarter', '4th quarter',
+                'H1', 'H2', 'the first half', 'the second half', 'spring', 'summer', 'fall', 'winter',
+                'january', 'february', 'october', 'december', 'the first week of january', 'the last week of december', 'the second week of february',
+                'the end of december', 'the beginning of january', 'the middle of february', 'early march', 'late december']
+PERIOD_YEARS = ['', ' 2017', ' 2020', ' of 2019', ' this year', ' next year', ' last year']
+PERIOD_FIXED = ['this week', 'next week', 'last week', 'this weekend', 'next weekend', 'last weekend', 'this month', 'next month', 'last month',
+                'this year', 'next year', 'last year', 'this quarter', 'next quarter', 'last quarter', 'the rest of the week', 'the rest of the month',
+                'the rest of the year', 'rest of this week', 'year to date', 'month to date', 'the 1990s', 'the 2020s', 'the 90s', "the '80s", 'the 21st century',
+                'the week of september 4th', 'the week of 2/29/2020', 'next 3 weeks', 'past 2 months', 'the coming 5 days', 'previous 2 years',
+                'next 2 quarters', 'the last 3 days', 'the next decade', 'the past decade', 'end of the year', 'beginning of next month',
+                'the first week of next month', 'the last week of this year', 'end of last week', 'later this year', 'earlier this week',
+                'the fourth quarter of last year', 'the fourth quarter of next year', 'the first quarter of this year', 'q4 of this year', '2017 q4', '2020q1']
+PERIOD_REFS = ['2016-11-07T08:30:00', '2019-01-01T00:00:00', '2019-03-31T23:59:59', '2019-06-30T12:00:00', '2019-10-01T00:00:00', '2019-12-31T23:00:00',
+               '2020-02-29T10:00:00', '2023-01-01T09:00:00', '2017-12-31T00:00:00', '2018-07-15T15:00:00', '2024-12-29T12:00:00', '2021-01-03T12:00:00']
+
+
+def period_enum(quick):
+    """date-range vocabulary (quarters, halves, seasons, months, weeks of a month, decades, relative periods) x year phrases x references on
+    quarter / year / leap-day boundaries"""
+    def gen():
+        i = 0
+        for h in PERIOD_HEADS:
+            for y in PERIOD_YEARS:
+                for k, ref in enumerate(PERIOD_REFS):
+                    i += 1
+                    if quick and (i + k) % 3:
+                        continue
+                    yield {'culture': 'en-us', 'q': ['{}', 'I will be away in {}', 'sales went up during {}.'][i % 3].format(h + y), 'ref': ref, 'family': 'period'}
+        for e in PERIOD_FIXED:
+            for ref in PERIOD_REFS:
+                i += 1
+                yield {'culture': 'en-us', 'q': ['{}', 'what happened {}?'][i % 2].format(e), 'ref': ref, 'family': 'period'}
+    return gen
+
+
 def hour_ranges():
     refs = ['2016-11-07T08:30:00', '2019-04-05T00:00:00']
     dates = ['on monday', 'tomorrow', 'on March 3, 2020', 'today', 'next friday']
@@ -238,4 +285,5 @@ def parts(tier, seed):
         enum_part('invalid-dates', invalid_enum(q), run_invalid, exhaustive=True),
         enum_part('bare-hour-ranges', hour_ranges, run_hour_range, exhaustive=True),
         enum_part('modifiers-and-holidays', modifier_holiday_enum, run_expression, exhaustive=True),
+        enum_part('period-vocabulary', period_enum(q), run_expression, exhaustive=True),
     ]
